@@ -14,7 +14,7 @@ from gwcs import wcstools
 
 PROP = "C18"
 LEAN_MODULE = "GwcsProofs.C18"
-SOURCES = ["GwcsModel/Basic.lean", "GwcsModel/Api.lean", "GwcsModel/Grid.lean", "GwcsProofs/C18.lean"]
+SOURCES = ["GwcsModel/Basic.lean", "GwcsModel/Api.lean", "GwcsModel/Grid.lean", "GwcsProofs/C18.lean", "GwcsProofs/C18a.lean", "GwcsProofs/C18b.lean"]
 THEOREMS = [
     "Gwcs.Grid.gridCount_bounds",
     "Gwcs.Grid.starts_at_lower",
@@ -35,6 +35,10 @@ THEOREMS = [
     "Gwcs.Grid.product_order_first",
     "Gwcs.Grid.axis_type_spelling_irrelevant",
     "Gwcs.Grid.temporal_alias",
+    "Gwcs.Grid.sampling_count",
+    "Gwcs.Grid.sampling_ends_on_limits",
+    "Gwcs.Grid.sampling_within_box",
+    "Gwcs.Grid.samplingAxes_two",
 ]
 RULE = ("cases: (a) grid — 1..3-D boxes with integer/half/quarter limits (zero width, offset), positive scalar or per-axis dyadic steps, both "
         "centring options, wrong-length step tuples; (b) footprint — exact pipelines of 1..4 pixel axes with spatial/spectral/temporal/custom "
@@ -279,6 +283,9 @@ def oracle(case, res):
 
 
 def request(case, res):
+    if case["kind"] == "gridf" and case.get("via") == "sip":
+        return {"op": "sampling", "bb": [[C.q2w(Fraction(a)), C.q2w(Fraction(b))] for a, b in case["bb"]], "n": case["n"][0],
+                "crpix": [C.q2w(Fraction(c)) for c in case["crpix"]]}
     if case["kind"] == "gridf":
         return None
     if case["kind"] == "grid":
@@ -296,6 +303,15 @@ def compare(case, res, resp):
             return "impl %s model %s" % (res.get("err", "ok"), resp.get("err", "ok"))
         return None
     m = resp["ok"]
+    if case["kind"] == "gridf":
+        # the exact lattice: npoints nodes from the lower to the upper limit (shifted by the reference pixel); the implementation's
+        # float lattice agrees in count and end points unless it shows finding D59 (one node too many), which the oracle names
+        for i, ax in enumerate(m["axes"]):
+            first, last = float(C.w2q(ax[0])) + case["crpix"][i], float(C.w2q(ax[-1])) + case["crpix"][i]
+            d59 = res["counts"][i] == len(ax) + 1
+            if not d59 and (res["counts"][i] != len(ax) or abs(res["first"][i] - first) > 1e-9 * max(1.0, abs(first)) or abs(res["last"][i] - last) > 1e-9 * max(1.0, abs(last))):
+                return "sampling lattice axis %d: impl %d nodes %r..%r, model %d nodes %r..%r" % (i, res["counts"][i], res["first"][i], res["last"][i], len(ax), first, last)
+        return None
     if case["kind"] == "grid":
         if res["shape"] != m["shape"]:
             return "grid shape impl %s model %s" % (res["shape"], m["shape"])
